@@ -83,6 +83,12 @@ def main():
     }
     if superseded:
         meta['superseded'] = superseded
+    try:
+        old = json.load(open(os.path.join(d, 'meta.json')))
+        if old.get('checked_by'):
+            meta['checked_by'] = old['checked_by']      # the check of another property catches it (set by hand)
+    except (OSError, ValueError):
+        pass
     with open(os.path.join(d, 'meta.json'), 'w') as f:
         json.dump(meta, f, indent=1)
         f.write('\n')
